@@ -40,6 +40,13 @@ pub struct Case {
     /// non-operation groups inserted at the FRONT of the in-memory group list through `groups_mut()` after all adds
     #[serde(default)]
     pub front_groups: Vec<(u8, Vec<(String, MValue)>)>,
+    /// extra OPERATION groups pushed at the end of the group list through `groups_mut()` after everything else
+    #[serde(default)]
+    pub tail_op_groups: Vec<Vec<(String, MValue)>>,
+    /// call to_bytes() once after the adds and before the group-list surgery, then serialise again (state that
+    /// survives between two serialisations)
+    #[serde(default)]
+    pub serialise_midway: bool,
 }
 
 #[derive(Clone, Copy)]
@@ -139,6 +146,16 @@ fn build(case: &Case) -> IppRequestResponse {
     for (g, n, v) in &case.adds {
         req.attributes_mut().add(delim_from_u8(*g), IppAttribute::new(n, v.to_ipp()));
     }
+    if case.serialise_midway {
+        let _ = req.to_bytes();
+    }
+    for attrs in &case.tail_op_groups {
+        let mut grp = IppAttributeGroup::new(DelimiterTag::OperationAttributes);
+        for (n, v) in attrs {
+            grp.attributes_mut().insert(n.clone(), IppAttribute::new(n, v.to_ipp()));
+        }
+        req.attributes_mut().groups_mut().push(grp);
+    }
     for (tag, attrs) in &case.front_groups {
         let mut grp = IppAttributeGroup::new(delim_from_u8(*tag));
         for (n, v) in attrs {
@@ -227,7 +244,8 @@ impl Prop for C09 {
             _ => Entry::NewResponse { version: *rng.pick(&[0x0101u16, 0x0200]), status: rng.below(4) as u16, id: rng.next() as u32 },
         };
         let puri = has_printer_uri(&entry);
-        let n_adds = rng.usize(0, 12);
+        // usually a handful of further additions, sometimes enough to push the operation group past 16 / 32 entries
+        let n_adds = if rng.chance(1, 12) { rng.usize(13, 40) } else { rng.usize(0, 12) };
         let mut adds = Vec::new();
         for _ in 0..n_adds {
             let group = *rng.pick(&[0x01u8, 0x01, 0x01, 0x02, 0x04, 0x05]);
@@ -250,7 +268,21 @@ impl Prop for C09 {
             let n = rng.usize(0, 2);
             front_groups.push((tag, (0..n).map(|_| (gen_ascii(rng, 8) + "f", simple_value(rng))).collect()));
         }
-        Case { uri, entry, adds, instances: 4, front_groups }
+        let mut tail_op_groups = Vec::new();
+        if rng.chance(1, 8) {
+            // a second operation group can only come from groups_mut(); whatever the encoder does with it, a target
+            // attribute that reaches the wire must still sit in its RFC position
+            let mut attrs = vec![(gen_ascii(rng, 6) + "t", simple_value(rng))];
+            if rng.chance(2, 3) {
+                attrs.push(("job-id".to_string(), MValue::Integer(gen_i32(rng))));
+            }
+            if !puri && rng.chance(1, 2) {
+                attrs.push(("job-uri".to_string(), MValue::Uri("ipp://h/jobs/9".into())));
+            }
+            tail_op_groups.push(attrs);
+        }
+        let serialise_midway = rng.chance(1, 6);
+        Case { uri, entry, adds, instances: 4, front_groups, tail_op_groups, serialise_midway }
     }
 
     fn run(&self, case: &Case, record: bool) -> RunReport {
@@ -337,6 +369,12 @@ impl Prop for C09 {
         if !c.front_groups.is_empty() {
             out.push(Case { front_groups: vec![], ..c.clone() });
         }
+        if !c.tail_op_groups.is_empty() {
+            out.push(Case { tail_op_groups: vec![], ..c.clone() });
+        }
+        if c.serialise_midway {
+            out.push(Case { serialise_midway: false, ..c.clone() });
+        }
         for i in 0..c.adds.len() {
             let mut a = c.adds.clone();
             a.remove(i);
@@ -359,7 +397,7 @@ impl Prop for C09 {
     }
 
     fn rule(&self) -> String {
-        "Each run executes on a fresh OS thread whose HashMap keys derive from the run seed (getrandom interposed), builds a seeded program — one of 12 entry points (10 operation builders, IppRequestResponse::new with/without URI, new_response) with seeded optional parameters, then 0-12 further attributes_mut().add() calls in seeded order incl. re-adding the reserved names and job-uri when no printer-uri exists, and in 1 of 6 programs a non-operation group inserted at the front of the group list through groups_mut() — four times (four fresh map key sets), serialises each with to_bytes() and reads the attribute names of every group with the reference tokenizer (a target attribute that ended up in a later operation group still counts as present). Oracle = the statement: first delimiter 0x01; attributes-charset first; attributes-natural-language second; printer-uri third if present, else job-uri third if present; job-id fourth when printer-uri and job-id are both present. distinct_nontrivial = distinct (program, observed order per instance) hashes among runs whose operation group has >= 4 attributes."
+        "Each run executes on a fresh OS thread whose HashMap keys derive from the run seed (getrandom interposed), builds a seeded program — one of 12 entry points (10 operation builders, IppRequestResponse::new with/without URI, new_response) with seeded optional parameters, then 0-12 further attributes_mut().add() calls in seeded order incl. re-adding the reserved names and job-uri when no printer-uri exists, (1 program in 12 makes 13-40 of them), in 1 of 6 programs a non-operation group inserted at the front of the group list through groups_mut(), in 1 of 8 a second operation group pushed at the end through groups_mut(), and in 1 of 6 a to_bytes() call between the adds and that surgery — four times (four fresh map key sets), serialises each with to_bytes() and reads the attribute names of every group with the reference tokenizer (a target attribute that ended up in a later operation group still counts as present). Oracle = the statement: first delimiter 0x01; attributes-charset first; attributes-natural-language second; printer-uri third if present, else job-uri third if present; job-id fourth when printer-uri and job-id are both present. distinct_nontrivial = distinct (program, observed order per instance) hashes among runs whose operation group has >= 4 attributes."
             .into()
     }
     fn assumptions(&self) -> Vec<String> {
